@@ -36,6 +36,14 @@ CHECKS.update({
         design="3/C04"),
 })
 
+CHECKS.update({
+    "C14": dict(
+        technique="property-based testing: Hypothesis value lists x both enum styles, membership oracle through a holder model with generated near-miss negatives",
+        text="For thousands of generated enum value lists and const values per run, every listed value must decode to itself and re-encode unchanged, the generated class/Literal must have exactly one member per value, null must map to None, and 10-16 near-miss unlisted values per case must be rejected.",
+        note="generator crashes/diagnostics on a list are not judged here; four narrow classes are listed findings",
+        design="3/C14"),
+})
+
 NOT_YET = {}
 
 def main():
